@@ -2,6 +2,7 @@ package main
 
 import (
 	"go/token"
+	"go/types"
 	"sort"
 	"strings"
 
@@ -145,9 +146,23 @@ func rulePositiveArg(c *Ctx, r *R) {
 				r.discharged(key, in.Pos(), why)
 				return
 			}
-			if reason, ok := positiveArgExceptions[name]; ok {
+			exName := name
+			isSampler := false
+			if rv := fn.Signature.Recv(); rv != nil && fn.Parent() == nil {
+				// the sampler exception is about the construct `s.r.Intn(s.k)` in a method of sampler, whichever method the
+				// skip computation lives in (Next, or a helper Next was split into)
+				if nt, ok := derefType(rv.Type()).(*types.Named); ok && nt.Obj().Name() == "sampler" && strings.HasPrefix(name, "xmath/xrand.sampler.") {
+					if ld, ok := arg.(*ssa.UnOp); ok && ld.Op == token.MUL {
+						if fa, ok := ld.X.(*ssa.FieldAddr); ok && fa.X == ssa.Value(fn.Params[0]) && fieldName(fa.X.Type(), fa.Field) == "k" {
+							exName = "xmath/xrand.sampler.Next"
+							isSampler = true
+						}
+					}
+				}
+			}
+			if reason, ok := positiveArgExceptions[exName]; ok && (isSampler || exName != "xmath/xrand.sampler.Next") {
 				// decide what is decidable of the sampler exception: the IsInf/IsNaN early return dominates the call
-				if strings.HasSuffix(name, "sampler.Next") {
+				if isSampler {
 					dom := false
 					for _, g := range guardsOf(b) {
 						if v, val := g.boolVal(); !val {
